@@ -129,6 +129,7 @@ def run_transvection(ctx, case):
     for i1 in range(1, 4 ** n):
         v1 = np.array([(i1 >> j) & 1 for j in range(2 * n)], dtype=np.uint8)
         ip = int((np.dot(v0[:n].astype(int), v1[n:]) + np.dot(v0[n:].astype(int), v1[:n])) % 2)
+        ctx.fresh(lambda: np.asarray(spf2.find_transvection(v0.copy(), v1.copy())), 'find_transvection: a second call is not affected by editing the array returned by the first')
         h = spf2.find_transvection(v0.copy(), v1.copy())
         ctx.require(np.shape(h) == (2, 2 * n), 'find_transvection shape')
         out = spf2.transvection(v0.copy(), *h)
@@ -242,8 +243,14 @@ def run_rand_spf2(ctx, case):
 
 def run_rand_cover(ctx, case):
     import numqi
+    import random as _random
     n, nseed = case['n'], case['nseed']
+
     ctx.note(klass=f'cover n={n}', desc=['cover', n], nontrivial=True)
+    # one random.Random instance handed over again and again (documented seed type): the stream advances, so the draws differ and cover the group
+    shared = _random.Random(case['n'] * 1000 + 7)
+    draws = [tuple(int(x) for x in numqi.random.rand_SpF2(n, return_kind='int_tuple', seed=shared)) for _ in range(60)]
+    ctx.require(len(set(draws)) >= (5 if n == 1 else 20), 'rand_SpF2 with one shared random.Random instance: successive draws advance the generator', f'{len(set(draws))} distinct of 60')
     base = [y for i in range(1, n + 1) for y in (4 ** i - 1, 2 ** (2 * i - 1))]
     seen = [set() for _ in base]
     mats = set()
